@@ -51,9 +51,6 @@ class SenseDecode(Unit):
             yield "C08", "asc-at-SPC-position", _get(lambda: exc.asc) == asc if _has(lambda: exc.asc) else False
             yield "C08", "ascq-at-SPC-position", _get(lambda: exc.ascq) == ascq if _has(lambda: exc.ascq) else False
 
-    def canaries(self, case, a, out, X):
-        if out.kind == "return" and S.key_asc_ascq(list(a.sense)) is not None and _has(lambda: out.value[0].asc) and out.value[0].asc is not None:
-            yield "canary:asc-is-zero", out.value[0].asc == 0
 
 
 def _has(f):
